@@ -47,9 +47,21 @@ theorem C11_claim_reuses (s : Shared) (b : Bool) (n : Nat) (h : (s.nodes n).inUs
 
 theorem C11_cooldown_released (s : Shared) (b : Bool) (n : Nat)
     (h : (s.nodes n).inUse = nodeCooldown) (hw : (s.nodes n).writers = 0) :
-    (stepNG s b (.cc0 n)).2.1 = .cc1 n ∧ (stepNG s b (.cc1 n)).2.1 = .cc2 n ∧
-    ((stepNG s b (.cc2 n)).1.nodes n).inUse = nodeUnused := by
-  simp [stepNG, h, hw]
+    (stepNG s b (.cc0 n)).2.1 = .cc1 n ∧ ((stepNG s b (.cc0 n)).1.nodes n).inUse = nodeChecking ∧
+    (stepNG s b (.cc1 n)).2.1 = .cc2 n true ∧
+    ((s.nodes n).inUse = nodeChecking → ((stepNG s b (.cc2 n true)).1.nodes n).inUse = nodeUnused) := by
+  refine ⟨by simp [stepNG, h], by simp [stepNG, h], by simp [stepNG, hw], fun hc => by simp [stepNG, hc]⟩
+
+/-- … and with a writer inside it goes back to the cooldown: the check holds the node in a state of
+    its own meanwhile, in which nobody can claim it -/
+theorem C11_cooldown_kept_while_writer_inside (s : Shared) (b : Bool) (n : Nat)
+    (hw : (s.nodes n).writers ≠ 0) (hc : (s.nodes n).inUse = nodeChecking) :
+    (stepNG s b (.cc1 n)).2.1 = .cc2 n false ∧ ((stepNG s b (.cc2 n false)).1.nodes n).inUse = nodeCooldown ∧
+    (stepNG s b (.claim n)).2.1 ≠ .done n := by
+  refine ⟨by simp [stepNG, hw], by simp [stepNG, hc], ?_⟩
+  have : (s.nodes n).inUse ≠ nodeUnused := by rw [hc]; exact Consts.node_checking_distinct.2.1
+  simp only [stepNG, this, ↓reduceIte, NG.afterNode]
+  split <;> simp
 
 /-- a node is allocated only by a `Node::get` whose walk found no node it could claim: every
     allocation step is preceded, in that call, by the end of the list (`allocLoad` is entered from
@@ -60,7 +72,7 @@ theorem C11_alloc_only_after_walk (s : Shared) (b : Bool) (ng : NG)
   cases ng <;> simp only [stepNG] at h
   · left; cases hh : s.head <;> simp_all
   · split at h <;> cases h
-  · split at h <;> cases h
+  · cases h
   · split at h <;> cases h
   · rename_i n
     right
